@@ -160,11 +160,13 @@ def ref_scores(name, y_true, y_pred):
     raise ValueError(name)
 
 
-def ref_ridge2fold(X, y, alphas, alpha_type, method, scoring, fold1, fold2):
-    """Explicit two-fold CV regularised least squares. Returns dict."""
+def ref_ridge2fold(X, y, alphas, alpha_type, method, scoring, fold1, fold2, eps=None):
+    """Explicit two-fold CV regularised least squares. Returns dict. eps: machine
+    epsilon of the caller's X (the numerical rank is a statement about X's precision)."""
     X = np.asarray(X, float)
     y = np.asarray(y, float)
-    rank_tol = max(X.shape) * EPS
+    fold1, fold2 = (np.flatnonzero(f) if np.asarray(f).dtype == bool else np.asarray(f) for f in (fold1, fold2))
+    rank_tol = max(X.shape) * (EPS if eps is None else eps)
     X1, X2, y1, y2 = X[fold1], X[fold2], y[fold1], y[fold2]
     alphas = np.asarray(alphas, dtype=float)
     scaled = alphas.copy()
